@@ -17,7 +17,7 @@ FUNCTIONS = ['ParseMCNPCell.parse_fill_kw / parse_trcl_kw / to_fillid / parse_ke
              'Transformation.get_mcnp_transforms / normalize_transform / transformation / transform_frame', 'ByUniverse.by_universe',
              'CellConversion.pot_fill / cell_transform (+caches) / pot_transform / apply_trcl', 'CellInlining.inline_cells',
              'VolumeT4.comment', 'constructGeomCompT4', 'pipeline of C01']
-SPELL = ['none', 'disp', 'num', 'full', 'star', 'trcl', 'trcl+fill']
+SPELL = ['none', 'disp', 'num', 'full', 'star', 'trcl', 'trcl+fill', 'starnum']
 
 
 def make(task):
